@@ -739,8 +739,8 @@ impl Hash for Value {
       Value::Index(x)=> x.borrow().hash(state),
       Value::MutableReference(x) => x.borrow().hash(state),
       Value::EmptyKind(k) => k.hash(state),
-      Value::Empty => Value::Empty.hash(state),
-      Value::IndexAll => Value::IndexAll.hash(state),
+      Value::Empty => 0u8.hash(state),
+      Value::IndexAll => 1u8.hash(state),
     }
   }
 }
